@@ -48,7 +48,7 @@ class StreamGen:
                 elif k == 2:
                     evs.append([tid, c['TRACE_STRING_PROC_EXIT'], 0, name_words(rng.choice(names[:5]))])
                 elif k == 3:
-                    evs.append([tid, c['TRACE_STRING_GLOBAL'], 3, [0, rng.randint(1, 5)] + name_words('gstr')[:2]])
+                    evs.append([tid, c['TRACE_STRING_GLOBAL'], 3, [0, rng.randint(1, 3)] + name_words(rng.choice(['gstr', 'other', 'x']))[:2]])
                 else:
                     evs.append([tid, c['TRACE_DATA_THREAD_TERMINATE'], 0, [tid, 0, 0, 0]])
                     evs.append([tid, c['TRACE_DATA_THREAD_TERMINATE'], 0, [tid, 0, 0, 0]])
@@ -59,7 +59,19 @@ class StreamGen:
                 evs.append([tid, c['BSC_read'], 2, [rng.choice([0, 0, 0, 9, 35]), rng.randint(0, 99), 0, 0]])
             elif r < 0.55:
                 evs.append([tid, c['BSC_open'], 1, [0x7000, rng.choice([0, 1, 2, 0x200, 0x601]), 0o644, 0]])
-                if rng.random() < 0.8:
+                if rich and rng.random() < 0.5:
+                    # a path that takes several records (START, continuation(s), END), then the lookup-done notice
+                    text = rng.choice(['/usr/lib/system/libsystem_kernel.dylib', '/private/var/folders/zz/' + 'd' * 40 + '/T/x',
+                                       '/' + 'é' * 30]).encode()
+                    vid = rng.randint(1, 999)
+                    chunks = [vid.to_bytes(8, 'little') + text[:24].ljust(24, b'\0')] + \
+                             [text[k:k + 32].ljust(32, b'\0') for k in range(24, len(text), 32)]
+                    for j, ch in enumerate(chunks):
+                        q = (1 if j == 0 else 0) | (2 if j == len(chunks) - 1 else 0)
+                        evs.append([tid, c['VFS_LOOKUP'], q, [int.from_bytes(ch[8 * k:8 * k + 8], 'little') for k in range(4)]])
+                    if 'VFS_LOOKUP_DONE' in c and rng.random() < 0.6:
+                        evs.append([tid, c['VFS_LOOKUP_DONE'], 0, [vid, 0, 0, 0]])
+                elif rng.random() < 0.8:
                     evs.append([tid, c['VFS_LOOKUP'], 3, path_words(rng.randint(1, 999), rng.choice(['/etc/passwd', '/tmp/x', '/a']))])
                 evs.append([tid, c['BSC_open'], 2, [rng.choice([0, 0, 2, 13]), rng.randint(3, 9), 0, 0]])
             elif r < 0.68:
